@@ -15,6 +15,11 @@ shapes + provenance of regex-group captures + constant propagation); helpers are
           (decided by folding the tag slicing - regex or str.find/partition/... - on a table of file contents)
   C06.R5  a declaration with an alias and an alias-free declaration of the same component stay distinct until the alias map is
           built (the declaration pattern also matches a bracketed name at the end of an arrow line)
+  C06.R6  parse is history-free: no location that outlives a call of `parse` (attribute of the parser object, class-level or
+          module-level variable, memoised object, mutable default) is read before this call has re-initialised it on every path
+          while the call tree of `parse` writes input-dependent or accumulated content into it (rules/c06_state.py: a flow-sensitive
+          walk over the call tree of the public entry point; lazily built constants, tables keyed by the complete input, write-only
+          statistics and configuration written outside the call tree are no history)
 """
 
 from __future__ import annotations
@@ -28,6 +33,7 @@ from core.regex_lang import Regex, cross_validate
 from core.report import Result
 
 from . import c06_absint as A
+from . import c06_state as S
 
 PARSER_CLASS = "pytestarch.diagram_extension.diagram_parser.PumlParser"
 RESULT_CLASS = "pytestarch.diagram_extension.parsed_dependencies.ParsedDependencies"
@@ -302,6 +308,16 @@ def pick(caps: dict, groups: list[str]):
     return ("ambiguous", tuple(sorted(vals)))
 
 
+def check_history(repo: Repo, res: Result, parser: ClassInfo) -> None:
+    try:
+        S.check(repo, res, parser, "C06.R6")
+    except AnalysisError:
+        raise
+    except (RecursionError, AssertionError, AttributeError, KeyError, TypeError, ValueError, IndexError) as exc:
+        fi = repo.lookup_method(parser, "parse")
+        res.undecide("C06.R6", f"{fi.relpath}::{fi.qualname}", f"the walk over the call tree of parse() failed ({type(exc).__name__}: {exc})", f"{fi.relpath}:{fi.node.lineno}")
+
+
 # ------------------------------------------------------------------------------------------------------------------- run
 def run(repo: Repo) -> Result:
     res = Result("C06")
@@ -312,17 +328,22 @@ def run(repo: Repo) -> Result:
         "named groups binding name / alias / dependor / dependee as intended and flowing into the key / value side of the returned relation; "
         "(R2) every store into a dependor-keyed dict accumulates; (R3) the alias map can reach keys and values of the returned relation and the "
         "component set collects declared names, dependors and dependees; (R4) contents without tags are rejected with PumlParsingError and "
-        "exactly the text between the tags is scanned; (R5) declarations of one component with and without alias are not merged."
+        "exactly the text between the tags is scanned; (R5) declarations of one component with and without alias are not merged; (R6) the call tree of "
+        "parse reads no state that an earlier call of parse may have written (parser attributes, class-level and module-level variables, memoised "
+        "objects, mutable defaults) before re-initialising it on every path - the result of parse(file) is a function of the file alone."
     )
     res.not_decided = "arbitrary generated diagrams and noise text containing the tags; forms outside the documented subset (listed as observations)."
     res.trusted_base = [
         "re._parser.parse produces the pattern's AST",
         "the checker's regex interpreter (cross-validated against re on the form table in every run)",
+        "R6: calls are resolved by the annotation-driven typer (class-hierarchy analysis); effects of library calls on their arguments other than the container methods of core.cfg.MUTATORS are not modelled; state that is reset at the *end* of parse is reported (an exception in between would leave it behind)",
         "the checker's abstract interpreter models the Python constructs and library calls used by the pipeline; unmodelled calls taint their result and lead to 'undecided', never to a pass",
     ]
     parser = find_class(repo, PARSER_CLASS)
     result_cls = find_class(repo, RESULT_CLASS)
     error_cls = find_class(repo, ERROR_CLASS)
+    # ---- R6 parse is history-free (independent of the abstract run below)
+    check_history(repo, res, parser)
     interp, ret, completed = interpret(repo, parser, None)
     parse_fi = repo.lookup_method(parser, "parse")
     parse_key = f"{parse_fi.relpath}::{parse_fi.qualname}"
